@@ -63,6 +63,10 @@ func (h *HTTPAnswers) Do(client *http.Client, request *http.Request) (*http.Resp
 	h.Hit++
 	h.URLs = append(h.URLs, request.URL.String())
 	m := HTTPMenu[a]
+	// a request may name the body it wants for the default answer: http://host/path?body=<json>
+	if b := request.URL.Query().Get("body"); b != "" && a == 0 {
+		m.Body = b
+	}
 	if m.Status == 0 {
 		return nil, fmt.Errorf("unable to connect to server")
 	}
